@@ -1,6 +1,7 @@
 import Pegnet.Batch
 import Pegnet.Average
 import Pegnet.Float64
+import Pegnet.VersionLock
 /-
   node/sync.go: SyncBlock and the body of the DBlockSync loop, in the code's order.
 -/
@@ -551,7 +552,10 @@ def applyBlock (P : Params) (n : Node) (b : Block) : Node × Option Failure :=
   | .ok _ db' => ({ db := { db' with avgTouched := false }, mem := b.height, cache := if db'.avgTouched then cache' else n.cache }, none)
   | .fail e db' => ({ n with cache := if db'.avgTouched then cache' else n.cache }, some e)
 
-/-- `NewPegnetd` on an existing database: in-memory state starts empty. -/
-def restart (n : Node) : Node := { db := n.db, mem := n.db.synced.getD 0, cache := {} }
+/-- `NewPegnetd` on an existing database: in-memory state starts empty; `CheckHardForks` writes
+    its legacy back-fill rows (through the pool, outside any block). -/
+def restart (P : Params) (n : Node) : Node :=
+  { db := { n.db with syncVersions := backfill P.forks n.db.synced n.db.syncVersions },
+    mem := n.db.synced.getD P.act.pegnet, cache := {} }
 
 end Pegnet
